@@ -29,8 +29,9 @@ RULES = {
     "R7": "evaluate_model labels every prediction column with the index of the chain file it came from, and predicts on the concatenation of the same list",
     "R8": "the stacking helpers give one prediction row per posterior sample, in holder order, from the like-named predictor",
     "R9": "the derived screen attributes this property's code relies on (treatment_space_size, treatment_arity) have their documented definitions in ScreenBase and every override",
+    "R10": "single-agent effects are computed from the observations as they are now: no getter of Screen keeps a result derived from the arrays set_observed mutates without being reset by it; views keep nothing",
 }
-MIN = {"R1": 4, "R2": 4, "R3": 5, "R4": 4, "R5": 1, "R6": 3, "R7": 2, "R8": 5, "R9": 2}
+MIN = {"R1": 4, "R2": 4, "R3": 5, "R4": 4, "R5": 1, "R6": 3, "R7": 2, "R8": 5, "R9": 2, "R10": 2}
 TRUSTED = ["numpy reductions: mean(axis=1) over a (experiment, theta) matrix reduces thetas", "np.var is the population variance"]
 TECHNIQUE = "polynomial/reduction normal forms compared against forms written from the statement; writer/reader agreement"
 LEVEL_TEXT = ("Each reported number is an expression over the inputs; its canonical form is compared with the canonical form "
@@ -47,7 +48,14 @@ def method_form(ctx, name, N):
     ctx.need(len(rets) == 1, f"{f.site()}: single return expected")
     env = single_defs(f.node)
     e = inline_calls(inline(rets[0].value, env), ctx.R, f.mod, class_q=ME)
-    return f, e
+    return f, _syn(e)
+
+
+def _syn(e):
+    """exact synonyms on an expression built at rule time (a default `slice(None)` substituted for a parameter: X[:, slice(None)] is X)"""
+    import copy
+    from engine.normalize import _Synonyms
+    return ast.fix_missing_locations(_Synonyms().visit(copy.deepcopy(e)))
 
 
 def _push_column_selection(e):
@@ -117,7 +125,7 @@ def r1(ctx):
             c = g_.target.id
             if N.key(g_.iter) == N.key(parse_expr("np.unique(self.chain_ids)")):
                 outer = {k_: v_ for k_, v_ in single_defs(f.node).items() if k_ != c}        # loop-invariant values named before the comprehension
-                v = inline_calls(inline(comp.elt, outer), ctx.R, f.mod, class_q=ME)
+                v = _syn(inline_calls(inline(comp.elt, outer), ctx.R, f.mod, class_q=ME))
                 v = _push_column_selection(v)
                 want = parse_expr(f"((self.predictions[:, self.chain_ids == {c}] - self.observations[:, None]) ** 2).mean()")
                 ok = N.key(v) == N.key(want)
@@ -367,9 +375,18 @@ def r4(ctx):
             lenv[n.targets[0].id] = n.value
     lenv = {k: v for k, v in lenv.items() if cnt[k] == 1}
     # emission
-    emits = [c for c in calls(lp, tail="append") if U(c.func.value) == "result_synergy"]
-    ctx.need(len(emits) == 1, f"{f.site()}: result_synergy.append(...) not found")
-    val = inline(emits[0].args[0], {k: v for k, v in lenv.items() if k == "synergy"})
+    # the synergy list: what the third element of the returned triple is made of (np.array(<list>))
+    syn_list = "result_synergy"
+    rets_ = returns(f.node)
+    if len(rets_) == 1 and isinstance(rets_[0].value, ast.Tuple) and len(rets_[0].value.elts) == 3:
+        third = inline(rets_[0].value.elts[2], {k: v for k, v in full_env.items() if not isinstance(v, ast.List)})
+        while isinstance(third, ast.Call) and call_name(third) in ("np.array", "np.asarray", "list") and len(third.args) >= 1:
+            third = third.args[0]
+        if isinstance(third, ast.Name):
+            syn_list = third.id
+    emits = [c for c in calls(lp, tail="append") if U(c.func.value) == syn_list]
+    ctx.need(len(emits) == 1, f"{f.site()}: {syn_list}.append(...) not found")
+    val = inline(emits[0].args[0], {k: v for k, v in lenv.items() if k == "synergy" or (isinstance(v, ast.Name) and v.id != obs_var)})
     effs = None
     if isinstance(val, ast.BinOp) and isinstance(val.op, ast.Sub) and isinstance(val.left, ast.Call) and call_name(val.left) in ("np.prod", "np.product") and len(val.left.args) == 1 \
             and isinstance(val.left.args[0], ast.Name):
@@ -436,7 +453,8 @@ def r4(ctx):
         return
     coll = appends[0]
     # skip rule: the emission is unreachable for a row with a missing effect
-    econds = stmt_conditions(lp.body).get(id(next(x for x in lp.body if emits[0] in list(ast.walk(x)))), [])
+    emit_stmt = next(x for b_ in lp.body for x in ast.walk(b_) if isinstance(x, ast.Expr) and x.value is emits[0])
+    econds = stmt_conditions(lp.body).get(id(emit_stmt), [])
     skip_ok = False
     shown = [U(t) for t, _ in econds]
     ids_iter = U(il.iter)
@@ -534,7 +552,11 @@ def r_derived(ctx):
     common.derived_attributes(ctx, "R9", ['treatment_space_size', 'treatment_arity'])
 
 
-RULE_FUNCS = [r1, r2, r3, r4, r5, r6, r7, r8, r_derived]
+def r10(ctx):
+    common.no_stale_memo(ctx, "R10")
+
+
+RULE_FUNCS = [r1, r2, r3, r4, r5, r6, r7, r8, r_derived, r10]
 
 
 def run(ctx):
